@@ -90,6 +90,21 @@ CHECKS = {
         design_ref="DESIGN.md section 3 C12, section 8.4n",
         technique="provenance with a units table (byte-valued vs character-valued sources) restricted to arithmetic combination; parent-dependence of derived positions; field-to-field mapping",
     ),
+    "C23": dict(
+        category="other",
+        text="Decides the structural necessary conditions of `veryl migrate` keeping every token and comment except the for-loop index "
+             "type: each of the 312 provided methods of the previous-grammar VerylWalker visits every child of its node (derived from "
+             "the generated ADTs, through auxiliary Opt/List/Group ADTs, token fields through veryl_token) with the child's own method, "
+             "on every path of the child's presence context and in source order - the only children never visited are ForStatement.colon "
+             "and .scalar_type; the Migrator overrides only veryl_token and for_statement and the override passes the same check; the "
+             "token sink writes the token's own interned text after its spacing, then every comment, and never lets a byte length into "
+             "its character column (finding F24: it did - tokens after multi-byte text were glued together; shown with the binary, "
+             "fixed); cmd_migrate writes a file only after the current parser accepted the migrated text, only where `migrate` is true, "
+             "and `migrate` is true only where the current parser rejected the input or Migrator::migratable selects it. It does not "
+             "decide that the previous grammar accepts exactly the previous language, nor the formatter's own token preservation (C09).",
+        design_ref="DESIGN.md section 3 C23, section 8.4p",
+        technique="walker must-visit analysis: leaves derived from ADT facts vs visits in MIR (access paths through Option/Vec/variant contexts), must-pass-through per presence context, order by reachability; units provenance; must-pass-through and edge reachability in cmd_migrate",
+    ),
     "C13": dict(
         category="other",
         text="Decides the provenance chain of a source-map entry across three crates: Emitter::push_token anchors a token's text with "
